@@ -6,7 +6,8 @@ namespace SqVerif.Gen.NoiseCalls
 structure OpMethod where
   name : String
   line : Nat
-  /-- `self._apply_random_pauli_noise()` is an unconditional statement before every engine call -/
+  /-- `self._apply_random_pauli_noise()` is an unconditional statement before every engine call, and no
+  statement in front of it can leave the method (no return / raise / yield / loop / try): reached on every path -/
   noiseFirst : Bool
   /-- number of call sites of `_apply_random_pauli_noise` in the method -/
   noiseCalls : Nat
